@@ -125,6 +125,16 @@ Definition rr_set_opt (r : rr) (key opt : Z) (val : list N) : outcome rr :=
   | _ => Err ARES_EFORMERR
   end.
 
+(* ares_dns_rr_add_opt_own (fixes/C04-opt-duplicate-options.patch): always appends *)
+Definition rr_add_opt (r : rr) (key opt : Z) (val : list N) : outcome rr :=
+  if negb (key_datatype key =? ARES_DATATYPE_OPT) then Err ARES_EFORMERR else
+  if negb (rr_type r =? key_to_rec_type key) then Err ARES_EFORMERR else
+  match assoc_get key (rr_fields r) with
+  | Some (FOpt l) =>
+    Ok (mkRR (rr_name r) (rr_type r) (rr_class r) (rr_ttl r) (assoc_set key (FOpt (l ++ [(opt, val)])) (rr_fields r)))
+  | _ => Err ARES_EFORMERR
+  end.
+
 (* ares_dns_record_create: validity of opcode / rcode / flags *)
 Definition record_create (id flags opcode rcode : Z) : outcome dnsrec :=
   do fl <- c_ares_dns_flags_arevalid flags;
